@@ -70,7 +70,12 @@ def make_ao(hist, name='ao', instrumented=True, base=None):
         return base.dispatch(self, e)
       finally:
         rec['exit'] = ds.S.steps
-  return MonAO(name=name, instrumented=instrumented)
+  ao = MonAO(name=name, instrumented=instrumented)
+  if not instrumented:
+    # ActiveObject's constructor hands `instrumented` to HsmWithQueues as its first positional parameter (maxlen), so the flag
+    # is lost there; the library's own tests switch an active object's instrumentation off through the attribute
+    ao.instrumented = False
+  return ao
 
 
 def poster(ao, hist, who, plan):
